@@ -1,32 +1,134 @@
 import FqModel.Proto
+import FqModel.Bits
 import FqModel.Gaps
-/-! driver for C04:  `gaps <total> <r>*` TAB `<g>*|-`  -/
+/-! driver for C04
+
+  `gaps <total> [@note]* <r>*` TAB `<g>*|-`
+      run "gaps": <r>* is what the harness feeds to the real ranges.Gaps, <g>* what it returned;
+      run "tree": <r>* are the leaf ranges D.FillGaps collected below one gap-filled value of a
+                  real decode tree (relative to that value's buffer), <g>* the ranges of the gap
+                  fields D.FillGaps added to it.
+      verdict: the coverage predicate evaluated on <r>*,<g>* (independent of the model), then
+               model `gaps total rs` = <g>* .
+  `cover <total> [@note]* <r>*` TAB `<g>*|-`
+      the coverage predicate only (run "tree", buffers whose root value was replaced by a single
+      scalar leaf — json, xml, … — where the gap fields FillGaps computes cannot be attached).
+  `gapbits [@note]* <hex window> <bit offset in window> <nbits> <gap len>` TAB `<reader len> <hex of the bits read>`
+      the content of a gap field (bits read from its own reader) against the input bits of its range.
+
+  Words that start with `@` are annotations (which decode produced the case) and are ignored.
+-/
 open FqModel FqModel.Gaps FqModel.Proto
 
 def parseRanges (ws : List String) : Option (List Range) :=
   if ws == ["-"] then some [] else ws.mapM parseRange
 
+def stripNotes (ws : List String) : List String := ws.filter (fun w => !w.startsWith "@")
+
+/-! ### the predicate, bit by bit (the definition; used for buffers of up to `smallLimit` bits) -/
+
+def smallLimit : Nat := 4096
+
+/-- first lost/overlapping bit, first known-hole bit -/
+def perBit (total : Range) (rs gs : List Range) : Option (Int × BitVerdict) × Option Int :=
+  let bits := (List.range total.len.toNat).map (fun (i : Nat) => total.start + Int.ofNat i)
+  let verdicts := bits.map (fun b => (b, bitVerdict rs gs b))
+  let bad := verdicts.find? (fun (_, v) => v == .lost || v == .overlap)
+  let known := verdicts.find? (fun (_, v) => v == .knownHole)
+  (bad, known.map (·.1))
+
+/-! ### the same predicate by a sweep over the range boundaries (for large buffers)
+    Between two consecutive boundaries (starts/stops of fields and gaps, including empty
+    ranges, and the buffer ends) `covered rs` and `covered gs` are constant; a lost segment
+    of two or more bits cannot be a one-bit hole (a start at `b+1` would be a boundary). -/
+
+structure Ev where
+  pos : Int
+  df : Int
+  dg : Int
+deriving Inhabited
+
+def addEvents (a : Array Ev) (rs : List Range) (field : Bool) : Array Ev :=
+  rs.foldl (fun a r =>
+    if r.len > 0 then
+      if field then (a.push ⟨r.start, 1, 0⟩).push ⟨r.stop, -1, 0⟩
+      else (a.push ⟨r.start, 0, 1⟩).push ⟨r.stop, 0, -1⟩
+    else (a.push ⟨r.start, 0, 0⟩).push ⟨r.stop, 0, 0⟩) a
+
+def sweep (total : Range) (rs gs : List Range) : Option (Int × BitVerdict) × Option Int := Id.run do
+  let ev := ((addEvents (addEvents #[] rs true) gs false).push ⟨total.start, 0, 0⟩).push ⟨total.stop, 0, 0⟩
+  let ev := ev.qsort (fun x y => x.pos < y.pos)
+  let mut cf : Int := 0
+  let mut cg : Int := 0
+  let mut bad : Option (Int × BitVerdict) := none
+  let mut known : Option Int := none
+  for i in [0:ev.size] do
+    let e := ev[i]!
+    cf := cf + e.df
+    cg := cg + e.dg
+    if i + 1 < ev.size then
+      let q := ev[i+1]!.pos
+      let lo := if e.pos < total.start then total.start else e.pos
+      let hi := if q > total.stop then total.stop else q
+      if lo < hi then
+        if cf > 0 && cg > 0 then
+          if bad.isNone then bad := some (lo, .overlap)
+        else if cf ≤ 0 && cg ≤ 0 then
+          if hi - lo == 1 && oneBitHole rs lo then
+            if known.isNone then known := some lo
+          else if bad.isNone then bad := some (lo, .lost)
+  return (bad, known)
+
+def gapsVerdict (compare : Bool) (total : Range) (rs implGaps : List Range) : String :=
+  let model := if compare then gaps total rs else implGaps
+  let small := total.len.toNat ≤ smallLimit
+  let sw := sweep total rs implGaps
+  let (bad, known) := if small then perBit total rs implGaps else sw
+  let outside := implGaps.filter (fun g => g.len < 0 || (g.len > 0 && (g.start < total.start || g.stop > total.stop)))
+  let div := if model == implGaps then "" else s!" ;DIVERGE model={showRanges model}"
+  -- self-check of the driver: on small buffers both evaluations of the predicate must agree
+  if small && (sw.1 != bad || sw.2 != known) then "BADOP sweep-and-per-bit-predicate-disagree"
+  else match bad with
+  | some (b, v) => s!"PROPFAIL bit={b} verdict={repr v}{div}"
+  | none =>
+    if !outside.isEmpty then
+      s!"PROPFAIL gap-outside-total {showRange outside.head!}{div}"
+    else match known with
+    | some b => s!"KNOWN one-bit-hole bit={b}{div}"
+    | none => if div.isEmpty then "OK" else s!"DIVERGE model={showRanges model}"
+
+def gapbitsVerdict (hexw soff snb sgl : String) (obs : List String) : String :=
+  match bytesOfHex hexw, soff.toNat?, snb.toNat?, sgl.toNat? with
+  | some window, some off, some nb, some gapLen =>
+    let expected := slice (bytesToBits window) off nb
+    if expected.length != nb then "BADOP window-shorter-than-range"
+    else match obs with
+    | [srl, hexo] =>
+      match srl.toNat?, bytesOfHex hexo with
+      | some readerLen, some got =>
+        if readerLen != gapLen then s!"PROPFAIL gap-reader-length {readerLen} range-length {gapLen}"
+        else
+          let gotBits := (bytesToBits got).take nb
+          if gotBits == expected then "OK"
+          else
+            let idx := ((gotBits.zip expected).takeWhile (fun (a, b) => a == b)).length
+            s!"PROPFAIL gap-content differs from the input at bit {idx} of the checked window"
+      | _, _ => "BADOP obs"
+    | [e] => if e.startsWith "err:" then s!"PROPFAIL gap-unreadable {e}" else "BADOP obs"
+    | _ => "BADOP obs"
+  | _, _, _, _ => "BADOP parse"
+
 def stepC04 (op obs : String) : String :=
-  match words op with
+  match stripNotes (words op) with
   | "gaps" :: t :: rs =>
     match parseRange t, parseRanges rs, parseRanges (words obs) with
-    | some total, some rs, some implGaps =>
-      let model := gaps total rs
-      let bits := (List.range total.len.toNat).map (fun (i : Nat) => total.start + Int.ofNat i)
-      let verdicts := bits.map (fun b => (b, bitVerdict rs implGaps b))
-      let bad := verdicts.filter (fun (_, v) => v == .lost || v == .overlap)
-      let known := verdicts.filter (fun (_, v) => v == .knownHole)
-      let outside := implGaps.filter (fun g => g.len < 0 || (g.len > 0 && (g.start < total.start || g.stop > total.stop)))
-      let div := if model == implGaps then "" else s!" ;DIVERGE model={showRanges model}"
-      if !bad.isEmpty then
-        let (b, v) := bad.head!
-        s!"PROPFAIL bit={b} verdict={repr v}{div}"
-      else if !outside.isEmpty then
-        s!"PROPFAIL gap-outside-total {showRange outside.head!}{div}"
-      else if !known.isEmpty then
-        s!"KNOWN one-bit-hole bit={known.head!.1}{div}"
-      else if div.isEmpty then "OK" else s!"DIVERGE model={showRanges model}"
+    | some total, some rs, some implGaps => gapsVerdict true total rs implGaps
     | _, _, _ => "BADOP parse"
+  | "cover" :: t :: rs =>
+    match parseRange t, parseRanges rs, parseRanges (words obs) with
+    | some total, some rs, some implGaps => gapsVerdict false total rs implGaps
+    | _, _, _ => "BADOP parse"
+  | ["gapbits", hexw, soff, snb, sgl] => gapbitsVerdict hexw soff snb sgl (words obs)
   | _ => "BADOP op"
 
 def main : IO Unit := run stepC04
